@@ -384,3 +384,13 @@ class HSymList:
 
     def copy(self):
         return HSymList(self.seq, self.maxlen)
+
+
+class HSymSet:
+    """Heap cell holding a mutable set of scalar keys of symbolic extent."""
+
+    def __init__(self, val):
+        self.val = val     # SymSet
+
+    def copy(self):
+        return HSymSet(self.val)
